@@ -221,9 +221,10 @@ impl <T: ArrayElement> ArrayIndexing<T> for Array<T> {
         } else {
             let arrs = self.split_axis(0)?;
             for &i in indices {
-                if i >= arrs.len() { return Err(ArrayError::OutOfBounds { value: "indices" }) }
+                if i >= self.shape[0] { return Err(ArrayError::OutOfBounds { value: "indices" }) }
             }
             let new_shape = self.get_shape()?.update_at(0, indices.len());
+            if self.is_empty()? { return Self::new(vec![], new_shape) }
             indices.iter()
                 .flat_map(|&i| arrs[i].clone())
                 .collect::<Vec<T>>()
